@@ -95,11 +95,15 @@ func c08Step(w *world, n *node, letter string, counter *int) {
 			w.refilter(n, n.filt) // rebuilt, equal by construction
 		}
 	case "Rn":
-		next := 1 + (*counter % 3) // x=1, x=2, ns a
+		next := *counter % 4 // the library's own accept-everything filter (unwrapped), x=1, x=2, ns a
 		if next == n.filt {
-			next = 1 + (next % 3)
+			next = (next + 1) % 4
 		}
-		w.refilter(n, next)
+		if next == 0 {
+			w.refilterRawNull(n, w.markRV+*counter)
+		} else {
+			w.refilter(n, next)
+		}
 	case "Ev":
 		// a parent event for an object the filters x=1 / ns a accept
 		w.put("a", fmt.Sprintf("e%d", *counter%2), map[string]string{"x": "1"})
